@@ -823,3 +823,118 @@ def enum_slice_loop(fn_node, loop):
         if isinstance(n, ast.Name) and n.id in (i, x) and isinstance(n.ctx, ast.Store) and not any(n is e for e in loop.target.elts):
             probs.append(f"loop variable {n.id} is rebound inside the loop")
     return i, x, S, lo, frozenset(ups), probs
+
+
+# ------------------------------------------------------------------ specialisation (constant folding under an assumption)
+def specialise(fn_node, subst: Dict[str, object]):
+    """Copy of the function with every expression whose text is a key of `subst` replaced by that constant, constants folded
+    (comparisons, membership in literal tuples, not / and / or, conditional expressions), single-assignment locals that fold to a
+    constant propagated, and `if` statements with a constant test replaced by the branch taken.  A scan written once and
+    parametrised by the strand (`for .. in (xs if forward else reversed(xs))`, `if (a > b) if forward else (a < b)`) becomes,
+    per strand, the plain scan the rules read.  Nothing is executed: only literals of the source are combined."""
+    import copy as _copy
+    fn = _copy.deepcopy(fn_node)
+    consts: Dict[str, object] = {}
+
+    def stores(name):
+        return [n for n in ast.walk(fn) if isinstance(n, ast.Name) and n.id == name and isinstance(n.ctx, (ast.Store, ast.Del))]
+
+    def cval(n):
+        return (True, n.value) if isinstance(n, ast.Constant) else ((True, tuple(cval(e)[1] for e in n.elts))
+                                                                   if isinstance(n, (ast.Tuple, ast.List, ast.Set)) and all(cval(e)[0] for e in n.elts) else (False, None))
+
+    class F(ast.NodeTransformer):
+        def generic_visit(self, node):
+            node = super().generic_visit(node)
+            return node
+
+        def visit(self, node):
+            if isinstance(node, ast.expr) and not isinstance(getattr(node, 'ctx', None), (ast.Store, ast.Del)):
+                try:
+                    t = ast.unparse(node)
+                except Exception:
+                    t = None
+                if t in subst:
+                    return ast.copy_location(ast.Constant(value=subst[t]), node)
+            return super().visit(node)
+
+        def visit_Name(self, n):
+            if isinstance(n.ctx, ast.Load) and n.id in consts:
+                return ast.copy_location(ast.Constant(value=consts[n.id]), n)
+            return n
+
+        def visit_UnaryOp(self, n):
+            self.generic_visit(n)
+            if isinstance(n.op, ast.Not) and isinstance(n.operand, ast.Constant):
+                return ast.copy_location(ast.Constant(value=not n.operand.value), n)
+            if isinstance(n.op, ast.USub) and isinstance(n.operand, ast.Constant) and isinstance(n.operand.value, (int, float)):
+                return ast.copy_location(ast.Constant(value=-n.operand.value), n)
+            return n
+
+        def visit_Compare(self, n):
+            self.generic_visit(n)
+            if len(n.ops) == 1:
+                (ka, a), (kb, b) = cval(n.left), cval(n.comparators[0])
+                if ka and kb:
+                    op = n.ops[0]
+                    try:
+                        r = {ast.Eq: lambda: a == b, ast.NotEq: lambda: a != b, ast.Lt: lambda: a < b, ast.LtE: lambda: a <= b, ast.Gt: lambda: a > b,
+                             ast.GtE: lambda: a >= b, ast.In: lambda: a in b, ast.NotIn: lambda: a not in b,
+                             ast.Is: lambda: a is b if isinstance(a, (bool, type(None))) or isinstance(b, (bool, type(None))) else a == b,
+                             ast.IsNot: lambda: not (a is b if isinstance(a, (bool, type(None))) or isinstance(b, (bool, type(None))) else a == b)}[type(op)]()
+                        return ast.copy_location(ast.Constant(value=bool(r)), n)
+                    except Exception:
+                        return n
+            return n
+
+        def visit_BoolOp(self, n):
+            self.generic_visit(n)
+            is_and = isinstance(n.op, ast.And)
+            keep = []
+            for v in n.values:
+                if isinstance(v, ast.Constant) and isinstance(v.value, bool):
+                    if v.value != is_and:          # False in and / True in or: decides (operands before it have no effects we model)
+                        if not keep:
+                            return ast.copy_location(ast.Constant(value=v.value), n)
+                        keep.append(v)
+                        break
+                    continue                      # neutral element
+                keep.append(v)
+            if not keep:
+                return ast.copy_location(ast.Constant(value=is_and), n)
+            if len(keep) == 1:
+                return keep[0]
+            n.values = keep
+            return n
+
+        def visit_IfExp(self, n):
+            self.generic_visit(n)
+            if isinstance(n.test, ast.Constant):
+                return n.body if n.test.value else n.orelse
+            return n
+
+    def fold_block(stmts):
+        out = []
+        for s in stmts:
+            s = F().visit(s)
+            for fld in ('body', 'orelse', 'finalbody'):
+                b = getattr(s, fld, None)
+                if isinstance(b, list) and b and isinstance(b[0], ast.stmt):
+                    setattr(s, fld, fold_block(b))
+            for h in getattr(s, 'handlers', []) or []:
+                h.body = fold_block(h.body)
+            if isinstance(s, ast.If) and isinstance(s.test, ast.Constant):
+                out.extend(s.body if s.test.value else s.orelse)
+                continue
+            if isinstance(s, ast.Assign) and len(s.targets) == 1 and isinstance(s.targets[0], ast.Name) and isinstance(s.value, ast.Constant) \
+                    and isinstance(s.value.value, (bool, int, str, type(None))) and len(stores(s.targets[0].id)) == 1:
+                consts[s.targets[0].id] = s.value.value
+            if isinstance(s, (ast.For, ast.While)) and not s.body:
+                s.body = [ast.Pass()]
+            if isinstance(s, ast.If) and not s.body:
+                s.body = [ast.Pass()]
+            out.append(s)
+        return out
+    fn.body = fold_block(fn.body)
+    ast.fix_missing_locations(fn)
+    return fn
